@@ -98,6 +98,53 @@ class IntToIndex(Contract):
         return judge(nat)
 
 
+class StrToIndex(Contract):
+    name = f"{IE}._utils._str_to_index"
+    prop = ("C15",)
+    top_level = True
+    cases = ("list", "ndarray")
+    descr = ("names are kept only when they are names of members: if nothing was dropped, every result element is the index of "
+             "the member bearing the name given (whatever the order in which the enumeration declares its members)")
+
+    def setup(self, I, ctx, case):
+        w = EnumWorld(I, ctx)
+        L = ctx.fresh_int("L")
+        ctx.assume(L >= 1)
+        V = z3.Function(ctx.fresh_name("V"), z3.IntSort(), STR)
+        mk = lambda i: Opaque(V(B._z(i)), "name", {})
+        value = SymList(SeqVal(L, mk, "names")) if case == "list" else nparr.NArr(L, mk, "str", "names")
+        return {"enum_class": w.H, "value": value, "__w": w, "__L": L, "__V": V}
+
+    def post(self, I, ctx, a, out, old):
+        w, L, V = a["__w"], a["__L"], a["__V"]
+        if out[0] != "return" or not isinstance(out[1], nparr.NArr):
+            return [("returns-an-index-array", False)]
+        r = out[1]
+        i = ctx.fresh_int("i")
+        rng = z3.And(i >= 0, i < L)
+        kept_all = B._z(r.n) == L
+        ri = B.zint(r.elem(i))
+        return [("never-longer-than-the-input", B._z(r.n) <= L),
+                ("when-nothing-is-dropped-every-index-designates-a-member", z3.Implies(z3.And(kept_all, rng), z3.And(ri >= 0, ri < w.n))),
+                ("when-nothing-is-dropped-every-index-is-the-member-bearing-the-name", z3.Implies(z3.And(kept_all, rng), w.NAME(ri) == V(i)))]
+
+    def small_model(self, I, case, a):
+        return [a["__L"] <= 3, a["__w"].n <= 4]
+
+    def call_descriptor(self, I, case, a, ev_):
+        return None       # the model's string order is uninterpreted: the probes replay
+
+    def probes(self, case):
+        import itertools
+        out = []
+        for names in (["b", "c", "a"], ["c", "a", "b"], ["d", "b", "a", "c"], ["a", "b"], ["z", "y", "x", "w", "v"]):
+            out.append({"callee": self.name, "script": NATIVE, "mode": "names", "names": names, "values": names + names[::-1], "as_array": case == "ndarray"})
+        return out
+
+    def judge_native(self, I, case, call, nat):
+        return judge(nat)
+
+
 NATIVE = "import sys; sys.path.insert(0, '/verif/native')\nimport c15_replay\noutcome = c15_replay.run(call)\n"
 
 
@@ -137,7 +184,7 @@ class EncodeArrayLike(Contract):
     name = f"{ENUM}._encode_array_like"
     prop = ("C15",)
     top_level = True
-    cases = ("ints", "members", "member-of-another-enum-second", "member-of-another-enum-first", "floats", "mixed-int-and-str")
+    cases = ("ints", "members", "names", "member-of-another-enum-second", "member-of-another-enum-first", "floats", "mixed-int-and-str")
     descr = ("a sequence is encoded to the indices of the members it designates, in order; anything that is not a member of this "
              "enumeration (index out of range on either side, member of another enumeration, unsupported element type) raises")
     inline = (f"{IE}._guards.*", f"{IE}._utils.*", f"{EARR}.__new__", f"{IE}._errors.*")
@@ -154,6 +201,10 @@ class EncodeArrayLike(Contract):
             i = z3.Int("i_x")
             ctx.assume(z3.ForAll([i], z3.And(X(i) >= 0, X(i) < w.n)))
             a["value"] = SymList(SeqVal(L, lambda j: w.member(w.H, X(B._z(j))), "members"))
+        elif case == "names":
+            V = z3.Function(ctx.fresh_name("V"), z3.IntSort(), STR)
+            a["__V"] = V
+            a["value"] = SymList(SeqVal(L, lambda j: Opaque(V(B._z(j)), "name", {"cls": I.builtins["str"]}), "names"))
         elif case == "member-of-another-enum-second":
             ctx.assume(z3.And(X(0) >= 0, X(0) < w.n))
             a["value"] = ListVal([w.member(w.H, X(0)), w.member(w.G, 1)])
@@ -178,6 +229,11 @@ class EncodeArrayLike(Contract):
             if case == "members":
                 return [("members-of-this-enumeration-are-accepted", False)]
             j = z3.Int("j_bad")
+            if case == "names":
+                k = z3.Int("k_nm")
+                return [("raises-only-when-some-name-is-no-member's",
+                         z3.And(z3.BoolVal(out[1].cls.name == "EnumMemberNotFoundError"),
+                                z3.Exists([j], z3.And(j >= 0, j < L, z3.ForAll([k], z3.Implies(z3.And(k >= 0, k < w.n), w.NAME(k) != a["__V"](j)))))))]
             return [("raises-only-when-some-index-designates-no-member",
                      z3.And(z3.BoolVal(out[1].cls.name == "EnumMemberNotFoundError"),
                             z3.Exists([j], z3.And(j >= 0, j < L, z3.Or(X(j) < 0, X(j) >= w.n)))))]
@@ -188,7 +244,7 @@ class EncodeArrayLike(Contract):
         return [("result-belongs-to-this-enumeration", r.attrs.get("possible_values") is w.H),
                 ("one-index-per-element", B._z(r.n) == L),
                 ("every-index-designates-a-member", z3.Implies(rng, z3.And(ri >= 0, ri < w.n))),
-                ("every-index-is-the-member-given", z3.Implies(rng, ri == X(i)))]
+                ("every-index-is-the-member-given", z3.Implies(rng, ri == X(i)) if case != "names" else z3.Implies(rng, w.NAME(ri) == a["__V"](i)))]
 
     def small_model(self, I, case, a):
         return [a["__L"] <= 3, a["__w"].n <= 4]
@@ -219,7 +275,7 @@ class EncodeArrayLike(Contract):
 
 class EncodeArray(EncodeArrayLike):
     name = f"{ENUM}._encode_array"
-    cases = ("ints", "members", "member-of-another-enum-second", "member-of-another-enum-first", "floats")
+    cases = ("ints", "members", "names", "member-of-another-enum-second", "member-of-another-enum-first", "floats")
     descr = ("an ndarray is encoded to the indices of the members it designates; anything that is not a member of this "
              "enumeration raises")
 
@@ -227,7 +283,7 @@ class EncodeArray(EncodeArrayLike):
         a = super().setup(I, ctx, case)
         v = a["value"]
         seq = I.as_seq(ctx, v)
-        dt = {"ints": "int", "members": "object", "member-of-another-enum-second": "object", "member-of-another-enum-first": "object",
+        dt = {"ints": "int", "members": "object", "names": "str", "member-of-another-enum-second": "object", "member-of-another-enum-first": "object",
               "floats": "float"}[case]
         a["value"] = nparr.NArr(seq.length, seq.elem, dt, case)
         return a
@@ -342,4 +398,4 @@ class EnumArrayDecodeToStr(EnumArrayDecode):
 
 EnumArrayDecode.cases = (None,)
 
-CONTRACTS = [IntToIndex(), EnumToIndex(), EncodeArrayLike(), EncodeArray(), EnumEncode(), EnumArrayDecode(), EnumArrayDecodeToStr()]
+CONTRACTS = [StrToIndex(), IntToIndex(), EnumToIndex(), EncodeArrayLike(), EncodeArray(), EnumEncode(), EnumArrayDecode(), EnumArrayDecodeToStr()]
